@@ -50,13 +50,13 @@ let eval = function
     let w = rootf f (nat_of_int k) in
     let w = if Stdlib.List.hd l = "spec:inv_twiddles" then inv f w else w in
     show_vec (Stdlib.List.init (n / 2) (fun i ->
-      FFT.fpow (ops f) w (FFT.rev_bits (nat_of_int (k - 1)) (nat_of_int i))))
+      FFT.fpow_N (ops f) w (n_of_z (z_of_int (int_of_nat (FFT.rev_bits (nat_of_int (k - 1)) (nat_of_int i)))))))
   | [ "permute_index"; size; idx ] ->
     let sz = z_of_dec size and ix = z_of_dec idx in
     let r64 = FFT.permute_index_u64 (n_of_z sz) (n_of_z ix) in
     let s64 = match r64 with None -> "panic" | Some r -> dec_of_z (z_of_n r) in
     (* the nat-level model used by the rest of the development must agree where it is computable *)
-    if Stdlib.String.length size <= 7 && r64 <> None then begin
+    if Stdlib.String.length size <= 5 && r64 <> None then begin
       let rn = string_of_int (int_of_nat (FFT.permute_index (nat size) (nat idx))) in
       if rn <> s64 then "model-mismatch u64=" ^ s64 ^ " nat=" ^ rn else s64
     end else s64
